@@ -333,7 +333,10 @@ def execute(trace) -> CaseResult:
                     except (wire.Malformed, ValueError, AttributeError) as e:
                         v("C07.status.shape", f"STATUS response {x.raw[:80]!r}: {e}", "status")
             for nm in made:
-                canon = os.path.normpath(nm).encode("latin-1")
+                canon = os.path.normpath(nm)
+                if canon.startswith("/") and not canon.startswith("//"):
+                    canon = canon[1:]  # '/' is the name-space prefix: '/x' is the mailbox 'x'
+                canon = canon.encode("latin-1")
                 parts = canon.split(b"/")
                 if canon not in listed and not any(p in (b".", b"..", b"") for p in parts):
                     v("C07.roundtrip.list-name", f"mailbox created as {nm!r} is not among the decoded LIST names {sorted(listed)[:12]!r}", "list")
